@@ -18,6 +18,33 @@ CHECKS = {
          "Exponents beyond 2^30 are not encoded. Sampling at real sizes is seeded, not exhaustive.", "DESIGN.md §4 C02"),
 }
 
+TRACE_NOTE = ("Trusted: TLC evaluator, CommunityModules Json, ZLimb (refinement-checked by ZLimbCheck), the recorder's encoder. "
+              "Exponents beyond 2^30 are not encoded. Sampling at real sizes is seeded, not exhaustive.")
+TRACE_TECH = "TLC trace validation of recorded calls against the TLA+ postconditions (MpfPost) in exact limb arithmetic"
+CHECKS.update({
+ "C01": (EX, TRACE_TECH + "; invariant Canonical on every outcome component",
+         "Every real component of every outcome of the pooled arithmetic corpus is judged canonical by TLC (spec/Exact.tla Canonical).",
+         TRACE_NOTE, "DESIGN.md §4 C01"),
+ "C03": (EX, TRACE_TECH + " (PostPowInt: exact power on limbs, side / 1-ulp / exactness clauses)",
+         "x**n events (libmp, ** operator, power()) judged by TLC against the exact power computed on limbs.",
+         TRACE_NOTE + " Exact powers limited to 15000 bits.", "DESIGN.md §4 C03"),
+ "C05": (EX, TRACE_TECH + " (exact dyadic comparison; equal => equal hash)",
+         "Comparison and hash events (mpf vs mpf/int/float, all six relations) judged by TLC against exact comparison.",
+         TRACE_NOTE, "DESIGN.md §4 C05"),
+ "C06": (EX, TRACE_TECH + " (integer-part definitions; modulo with verified quotient witness)",
+         "floor/ceil/nint/frac/int()/mod events judged by TLC; the quotient of x mod y is an untrusted witness verified exactly by the spec.",
+         TRACE_NOTE + " x mod 0 is outside the statement and not judged.", "DESIGN.md §4 C06"),
+ "C09": (EX, TRACE_TECH + " (IEEE double geometry F64Val / PostToFloat)",
+         "float(x) and mpf(float) events judged by TLC against the double geometry defined in the spec.",
+         TRACE_NOTE + " Subnormal results are outside the statement and not judged.", "DESIGN.md §4 C09"),
+ "C10": (EX, TRACE_TECH + "; invariant BitsLe(component, precision) on every rounded-class outcome",
+         "Every real component of every rounded-class outcome of the pooled corpus is judged by TLC to have at most prec bits.",
+         TRACE_NOTE, "DESIGN.md §4 C10"),
+ "C39": (EX, TRACE_TECH + " (PostMag/PostFrexp/PostLdexp/PostIsInt/PostNintDistance)",
+         "mag/frexp/ldexp/isint/nint_distance events judged by TLC against their exact definitions.",
+         TRACE_NOTE, "DESIGN.md §4 C39"),
+})
+
 ALL = ["C%02d" % i for i in range(1, 44)]
 NOT_APPLICABLE = {
 }
